@@ -215,6 +215,9 @@ def check_case(case) -> Result:
                 if pe['intervals'] == [] and model.project(back, True)['intervals'] is None:
                     sig = 'C11/slice/empty-interval-list-instead-of-none'
                 r.fail('a non-empty slice re-parses to an equal annotation', sig, bounds=[i, j], result=ser, **ctx)
+            elif bool(out.has_mods()) != bool(back.has_mods()):
+                r.fail('a non-empty slice re-parses to an equal annotation', 'C11/slice/empty-container-instead-of-none', bounds=[i, j],
+                       result=ser, slice_has_mods=bool(out.has_mods()), reparsed_has_mods=bool(back.has_mods()), **ctx)
         # composition of slices
         for (k, l) in case['inner']:
             k, l = min(k, j - i), min(l, j - i)
